@@ -681,7 +681,120 @@ func genValidate(r *rand.Rand, t core.Tier) any {
 	return in
 }
 
-// genValidateZone: the shape in which a re-simulation moves a zone-bound pod from an existing node onto the replacement:
+// genValidateTighten: the shapes in which the re-simulation after a cluster change moves a CONSTRAINED pod from an
+// existing node onto the replacement, so that the re-simulated NodeClaim carries a requirement the command's
+// replacement may lack.  Candidate(s) A (zone zA, on-demand) host free pods and one pod `pinned`; node B (zone zA, same
+// capacity type) has room for `pinned` only; while the command waits, B fills up (or, as a control, only partly).
+//
+//	pin         what `pinned` asks for                      the re-simulated claim gains
+//	zone        nodeSelector zone = zA                      zone In [zA]
+//	zone2       required zone In [zA, zX]                   zone In [zA, zX]
+//	zone-notin  required zone NotIn [cheap zone]            zone NotIn / In [the others]
+//	ct          nodeSelector capacity-type = on-demand      capacity-type In [on-demand]   (the command is pinned to spot
+//	                                                        when the pool allows both)
+//	ct-notin    required capacity-type NotIn [spot]         capacity-type In [on-demand]
+//	it          required instance-type In [small, mid, big] an instance-type requirement (a key other than zone / capacity type)
+//	none        nothing                                     nothing (control: the command must be released)
+//
+// `freePinned`: the free pods ask for zone zA themselves, so the command's replacement already carries the zone (control for
+// the zone pins: nothing is gained, the command must be released).
+func genValidateTighten(r *rand.Rand, t core.Tier) any {
+	zA := pick(r, "z2", "z3")
+	cheapZone := "z1"
+	pin := pick(r, "zone", "zone", "zone2", "zone-notin", "ct", "ct", "ct-notin", "it", "none")
+	// the pool allows spot and on-demand: computeConsolidation pins the replacement to spot (more often for the
+	// capacity-type pins: with an on-demand-only pool the command carries `on-demand` already and nothing is gained)
+	bothCT := r.Float64() < 0.5
+	if pin == "ct" || pin == "ct-notin" {
+		bothCT = r.Float64() < 0.8
+	}
+	mkIT := func(name string, cpu, mem, pods, od int64) world.IT {
+		it := world.IT{Name: name, CPU: cpu, Mem: mem, Pods: pods, Arch: "amd64", OS: []string{"linux"}}
+		for _, z := range zones {
+			p := od
+			if z == cheapZone {
+				p = od*6/10 + int64(r.IntN(3))*8
+			}
+			it.Offerings = append(it.Offerings, world.Offering{Zone: z, CapacityType: "on-demand", Price: p, Available: true})
+			if bothCT {
+				it.Offerings = append(it.Offerings, world.Offering{Zone: z, CapacityType: "spot", Price: p * 4 / 10, Available: true})
+			}
+		}
+		return it
+	}
+	small := mkIT("it-small", 2000, 8000, 16, 100)
+	mid := mkIT("it-mid", 4000, 16000, 30, 220)
+	big := mkIT("it-big", 8000, 32000, 30, 640)
+	pools := []world.NodePool{{Name: "pool-0", Labels: map[string]string{}}}
+	if !bothCT {
+		pools[0].Reqs = []world.MinExpr{{Key: ctKey, Op: "In", Values: []string{"on-demand"}}}
+	}
+	multi := r.Float64() < 0.3
+	freePinned := r.Float64() < 0.2
+	cpuPinned := int64(100 * (2 + r.IntN(4)))
+	pinned := world.Pod{Name: "pinned", Labels: map[string]string{"app": "b"}, CPU: cpuPinned, Mem: 64}
+	switch pin {
+	case "zone":
+		pinned.NodeSelector = map[string]string{zoneKey: zA}
+	case "zone2":
+		zX := pick(r, zones...)
+		pinned.Required = [][]world.KExpr{{{Key: zoneKey, Op: "In", Values: []string{zA, zX}}}}
+	case "zone-notin":
+		pinned.Required = [][]world.KExpr{{{Key: zoneKey, Op: "NotIn", Values: []string{cheapZone}}}}
+	case "ct":
+		pinned.NodeSelector = map[string]string{ctKey: "on-demand"}
+	case "ct-notin":
+		pinned.Required = [][]world.KExpr{{{Key: ctKey, Op: "NotIn", Values: []string{"spot"}}}}
+	case "it":
+		pinned.Required = [][]world.KExpr{{{Key: itKey, Op: "In", Values: []string{"it-small", "it-mid", "it-big"}}}}
+	}
+	world.FixExprs(&pinned)
+	free := func(name string, cpu int64) world.Pod {
+		p := world.Pod{Name: name, Labels: map[string]string{"app": "a"}, CPU: cpu, Mem: 64}
+		if freePinned {
+			p.NodeSelector = map[string]string{zoneKey: zA}
+		}
+		return p
+	}
+	var nodes []world.Node
+	var picked []string
+	if multi {
+		// two candidates whose free pods together need it-mid; it-big (their own type) is removed by the same-type filter
+		for i := 0; i < 2; i++ {
+			n := world.Node{Name: fmt.Sprintf("node-a%d", i), Pool: "pool-0", IT: "it-big", Zone: zA, CapacityType: "on-demand", Labels: map[string]string{}, Stage: "initialized",
+				Pods: []world.Pod{free(fmt.Sprintf("free-%d", i), 1100+int64(r.IntN(3))*100)}}
+			if i == 0 {
+				n.Pods = append(n.Pods, pinned)
+			}
+			nodes = append(nodes, n)
+			picked = append(picked, n.Name)
+		}
+	} else {
+		a := world.Node{Name: "node-a", Pool: "pool-0", IT: "it-big", Zone: zA, CapacityType: "on-demand", Labels: map[string]string{}, Stage: "initialized",
+			Pods: []world.Pod{free("free", 900+int64(r.IntN(3))*100), pinned}}
+		nodes = append(nodes, a)
+		picked = []string{"node-a"}
+	}
+	// B: small on-demand node in zA with room for `pinned` only
+	b := world.Node{Name: "node-b", Pool: "pool-0", IT: "it-small", Zone: zA, CapacityType: "on-demand", Labels: map[string]string{}, Stage: "initialized",
+		Pods: []world.Pod{{Name: "resident", Labels: map[string]string{"app": "c"}, CPU: 2000 - cpuPinned - 100 - int64(r.IntN(2))*100, Mem: 64}}}
+	nodes = append(nodes, b)
+	method := "single"
+	if multi {
+		method = "multi"
+	}
+	in := RunIn{Method: method, SpotToSpot: r.Float64() < 0.5, Pools: defaultPoolExt(pools), Pods: []PodExt{}, Nodes: []NodeExt{}, PDBs: []PDBExt{}, Budget: 100, Pick: picked}
+	in.Scn = world.Scenario{ITs: []world.IT{small, mid, big}, Pools: pools, Nodes: nodes, DaemonSets: []world.DaemonSet{}, Pods: []world.Pod{}, Parallelism: 1}
+	churnCPU := cpuPinned // fills B: `pinned` must go to the replacement
+	if r.Float64() < 0.15 {
+		churnCPU = 100 // control: B keeps room for `pinned`, nothing changes for the command
+	}
+	in.Churn = &Churn{Kind: "bound", Node: "node-b", Pod: &world.Pod{Name: "churn-pod", Labels: map[string]string{"app": "z"}, CPU: churnCPU, Mem: 64}}
+	return in
+}
+
+// genValidateZone: the shape of the repaired finding C06-validation-stale-replacement-requirements (kept as it was
+// found; genValidateTighten generalises it): a re-simulation moves a zone-bound pod from an existing node onto the replacement:
 // candidate A (zone zA) hosts a free pod and a pod pinned to zA; node B in zA has room for the pinned pod only;
 // while the command waits, B fills up.
 func genValidateZone(r *rand.Rand, t core.Tier) any {
